@@ -53,16 +53,16 @@ def _mirror_text(node):
 
 
 def run(ck):
-    ck.rule("R5", "no loop walks a live view of a container of the graph while removing from that container", floor=15)
+    ck.rule("R5", "no loop walks a live view of a container of the graph while removing from that container", floor=9)
     from rules.c30 import live_iteration_rules
     live_iteration_rules(ck, "R5", [("miasm/core/graph.py", "DiGraph")])
     m = ck.repo.mod(REL)
     meths = m.methods("DiGraph")
     ck.rule("R1", "adjacency state is written only by the four mutators, each edge mutation updating all three structures, mirrored", floor=6)
-    ck.rule("R2", "backward/post variants are the mirror image of their forward twins; forward twins have the demanded orientation", floor=8)
+    ck.rule("R2", "backward/post variants are the mirror image of their forward twins; forward twins have the demanded orientation", floor=5)
     ck.rule("R4", "skeleton of cycle detection and of the dominator fix point: on-path set maintained around the back-edge test; head fixed, "
-                  "intersection over in-region predecessors plus the node, successors re-queued on change", floor=8)
-    ck.rule("R3", "successor/predecessor accessors and heads/leaves read the right map", floor=4)
+                  "intersection over in-region predecessors plus the node, successors re-queued on change", floor=5)
+    ck.rule("R3", "successor/predecessor accessors and heads/leaves read the right map", floor=2)
 
     # ---------------------------------------------------------------- R6 recursion state
     ck.rule("R6", "a recursive walk never changes in place a collection it received as argument: sibling branches of the recursion see the "
